@@ -4,6 +4,14 @@ package main
 // CometBFT ValidatorSet maintained from the returned validator updates.
 
 import (
+	"encoding/hex"
+	"math/big"
+
+	ethereumtypes "github.com/KiraCore/sekai/x/ethereum/types"
+	"github.com/cosmos/gogoproto/proto"
+	ethcommon "github.com/ethereum/go-ethereum/common"
+	ethtypes "github.com/ethereum/go-ethereum/core/types"
+	ethcrypto "github.com/ethereum/go-ethereum/crypto"
 	"github.com/cosmos/cosmos-sdk/types/module"
 	customgov "github.com/KiraCore/sekai/x/gov"
 	"encoding/json"
@@ -484,4 +492,35 @@ func (w *World) ReimportModuleInPlace(ctx sdk.Context, moduleName, storeKey stri
 		write()
 	}
 	return failed
+}
+
+// RelayMsg builds an x/ethereum MsgRelay sent by account `relayer`: an Ethereum legacy transaction (chain id 8789) signed
+// with the key of account `key`, carrying the protobuf bytes of `send` as its data. The module executes the embedded bank
+// send when the recovered key is the Ethereum sender AND owns the account the bank message names as sender.
+func (w *World) RelayMsg(relayer, key int, send *banktypes.MsgSend) sdk.Msg {
+	ek, err := ethcrypto.ToECDSA(w.privs[key].Bytes())
+	if err != nil {
+		panic(err)
+	}
+	data, err := proto.Marshal(send)
+	if err != nil {
+		panic(err)
+	}
+	to := ethcommon.HexToAddress("0x00000000000000000000000000000000000000aa")
+	ntx := ethtypes.NewTx(&ethtypes.LegacyTx{Nonce: 0, To: &to, Value: big.NewInt(0), Gas: 21000, GasPrice: big.NewInt(1), Data: data})
+	hash := ethtypes.NewEIP155Signer(big.NewInt(8789)).Hash(ntx)
+	sig, err := ethcrypto.Sign(hash.Bytes(), ek)
+	if err != nil {
+		panic(err)
+	}
+	evmTx := &ethereumtypes.EVMTx{
+		From: ethcrypto.PubkeyToAddress(ek.PublicKey).Hex(), To: to.Hex(), Value: "0", Gas: "21000", GasPrice: "1", Nonce: "0",
+		Data: "0x" + hex.EncodeToString(data), ChainId: 8789,
+		V: "0x" + hex.EncodeToString([]byte{sig[64] + 27}), R: "0x" + hex.EncodeToString(sig[:32]), S: "0x" + hex.EncodeToString(sig[32:64]),
+	}
+	bz, err := proto.Marshal(evmTx)
+	if err != nil {
+		panic(err)
+	}
+	return ethereumtypes.NewMsgRelay(w.addrs[relayer], hex.EncodeToString(bz))
 }
